@@ -99,6 +99,45 @@ def sm_case(ctx, kind, table, seed, name="X", usertags=None, key=None):
         tree = read_tree(os.path.join(d, "o"))
     return judge_tree(ctx, tree, kind, {"table": table, "iface_seed": seed, "name": name, "usertags": usertags}, key or ("sm:%s" % kind))
 
+# ---- tie for the files of C07_tags_consumed_shipped: real output vs the extracted EngineSM.generate (same dictionary as dict0)
+DICT0 = [["<<<STATEMACHINENAMEUPPER>>>", "X"], ["<<<stateMachineName>>>", "x"], ["<<<STATE_MACHINE_NAME>>>", "x"], ["<<<STATEMACHINENAME>>>", "X"],
+         ["<<<CLASSNAME>>>", "X"], ["<<<CLASS_NAME>>>", "x"], ["<<<PYIFGENNAME>>>", "Transition Table"], ["<<<NAMESPACE>>>", "NS"],
+         ["<<<AUTHOR>>>", "a"], ["<<<GROUP>>>", "g"], ["<<<BRIEF>>>", "b"], ["<<<DLL_EXPORT>>>", ""]]
+MODELLED = {"cpp": ("statemachine_templates_embedded_arm", ["Test.TEMPLATEStateMachine.cpp"]),
+            "proto": (os.path.join("protocol_templates", "CPP"), ["TEMPLATEReceiver.h", "TEMPLATETransmitter.h"])}
+
+
+def engine_tie(ctx, kind, table, iface, desc):
+    """the files that Model/EngineSM.v models completely: the real generator's bytes = the extracted model's text"""
+    if not ctx.km:
+        return
+    tdir, names = MODELLED[kind]
+    with scratch() as d:
+        try:
+            kj.generate(kind, os.path.join(d, "o"), table=[list(r) for r in table], iface=iface, name="X")
+        except Exception as e:  # noqa
+            ctx.count("generator_rejected:%s" % type(e).__name__)
+            return
+        tree = read_tree(os.path.join(d, "o"))
+    structs, protos, msgs = list(iface.StructNames()), list(iface.ProtocolStructNames()), list(iface.MessageNames())
+    for tname in names:
+        with open(os.path.join(kj.REPO, "kojen", tdir, tname), newline="") as f:
+            lines = f.read().split("\n")
+        lines = [l + "\n" for l in lines[:-1]] + ([lines[-1]] if lines[-1] else [])
+        try:
+            r = ctx.km.call("m.generate", [list(r) for r in table], structs, protos, msgs, DICT0, [[k, "" if v is None else str(v)] for k, v in iface.UserTags().items()],
+                            [[tname, lines]])
+        except Exception as e:  # noqa
+            r = []
+        ctx.count("engine_tie_" + tname)
+        if not r:
+            ctx.count("engine_tie_outside_model_domain")      # a name spells an unmodelled tag etc.
+            continue
+        model = r[0][0][1]
+        real = tree.get(tname.replace("TEMPLATE", "X"))
+        if real != model:
+            ctx.tie_broken("correspondence: real %s vs EngineSM.generate" % tname, dict(desc, file=tname, real=real, model=model))
+
 
 def run(ctx):
     for p in sorted(glob.glob(os.path.join(VERIF, "corpus", "C07", "*.json"))):
@@ -124,6 +163,8 @@ def run(ctx):
             nt = sm_case(ctx, kind, t, seed, rng.choice(["X", "CDPlayer"]), ut)
             ctx.case((kind, json.dumps(t), seed, json.dumps(ut)), nontrivial=nt > 0)
             ctx.count("random_" + kind)
+            if kind == "cpp":
+                engine_tie(ctx, "cpp", t, kj.events_interface(random.Random(seed), t, "cpp", ut), {"table": t, "iface_seed": seed})
             if i == 0:
                 ctx.sample({"kind": kind, "table": t, "usertags": ut})
     for i in range(n):
@@ -134,6 +175,7 @@ def run(ctx):
         nt = judge_tree(ctx, tree, "proto", {"iface_seed": seed}, "proto")
         ctx.case(("proto", seed), nontrivial=nt > 0)
         ctx.count("random_proto")
+        engine_tie(ctx, "proto", [], kj.random_proto_interface(random.Random(seed)), {"iface_seed": seed})
     # UML: shipped diagrams and mutants, both back ends, namespace folders on/off
     from .. import umlsynth
     m = ctx.budget(6, 120)
